@@ -57,6 +57,7 @@ type Stats struct {
 	MapRanges  int
 	LoopYields int
 	Makes      int
+	Knobs      int
 	Rewritten  []string
 }
 
@@ -87,6 +88,24 @@ func skipPkg(ip string) bool {
 var mapRangePkgs = map[string]bool{
 	"/compiler": true, "/compiler/ast": true, "/compiler/ssa": true, "/compiler/circuits": true,
 	"/compiler/utils": true, "/compiler/mpa": true, "/types": true, "/circuit": true,
+}
+
+// knobSpec names a tuning constant of the code that the simulator may vary
+// per run (default: the value in the source, so behaviour is unchanged unless a
+// world sets the knob). Ident: every use of a package-level constant;
+// AssignLHS: integer literals assigned to a local variable of that name
+// (":=" gives knob Name+".first", "=" gives Name+".next").
+type knobSpec struct {
+	Ident, AssignLHS, Name string
+}
+
+// knobFiles lists the knobs per file. If the source no longer matches, the
+// knob is simply not applied (Stats.Knobs says how many were).
+var knobFiles = map[string][]knobSpec{
+	"/gmw/triples.go": {
+		{Ident: "lowWaterMark", Name: "gmw.lowWaterMark"},
+		{AssignLHS: "batchSize", Name: "gmw.batchSize"},
+	},
 }
 
 var loopYieldFiles = map[string]bool{
@@ -298,15 +317,50 @@ func (c *fileCtx) rewriteFile(f *ast.File) {
 	doMap := c.variant == "c08" && mapRangePkgs[c.relPkg]
 	doYield := c.variant == "c17" && loopYieldFiles[c.relFile]
 
+	knobs := knobFiles[c.relFile]
+	declIdent := map[*ast.Ident]bool{}
+	knobCall := func(name string, def ast.Expr) ast.Expr {
+		c.mark(true)
+		c.st.Knobs++
+		return &ast.CallExpr{Fun: rtSel("Knob"), Args: []ast.Expr{&ast.BasicLit{Kind: token.STRING, Value: strconv.Quote(name)}, def}}
+	}
+
 	pre := func(cur *Cursor) bool {
 		switch n := cur.Node().(type) {
+		case *ast.Field:
+			for _, id := range n.Names {
+				declIdent[id] = true
+			}
 		case *ast.AssignStmt:
+			for _, k := range knobs {
+				if k.AssignLHS == "" || len(n.Lhs) != 1 || len(n.Rhs) != 1 {
+					continue
+				}
+				id, ok := n.Lhs[0].(*ast.Ident)
+				lit, ok2 := n.Rhs[0].(*ast.BasicLit)
+				if !ok || !ok2 || id.Name != k.AssignLHS || lit.Kind != token.INT {
+					continue
+				}
+				name := k.Name + ".next"
+				if n.Tok == token.DEFINE {
+					name = k.Name + ".first"
+				}
+				n.Rhs[0] = knobCall(name, lit)
+			}
+			for _, l := range n.Lhs {
+				if id, ok := l.(*ast.Ident); ok {
+					declIdent[id] = true
+				}
+			}
 			if len(n.Lhs) == 2 && len(n.Rhs) == 1 {
 				if u, ok := unparen(n.Rhs[0]).(*ast.UnaryExpr); ok && u.Op == token.ARROW {
 					c.recv2[u] = true
 				}
 			}
 		case *ast.ValueSpec:
+			for _, id := range n.Names {
+				declIdent[id] = true
+			}
 			if len(n.Names) == 2 && len(n.Values) == 1 {
 				if u, ok := unparen(n.Values[0]).(*ast.UnaryExpr); ok && u.Op == token.ARROW {
 					c.recv2[u] = true
@@ -337,6 +391,22 @@ func (c *fileCtx) rewriteFile(f *ast.File) {
 
 	post := func(cur *Cursor) bool {
 		switch n := cur.Node().(type) {
+		case *ast.Ident:
+			for _, k := range knobs {
+				if k.Ident == "" || n.Name != k.Ident || declIdent[n] {
+					continue
+				}
+				if sel, ok := cur.Parent().(*ast.SelectorExpr); ok && sel.Sel == n {
+					continue
+				}
+				if kv, ok := cur.Parent().(*ast.KeyValueExpr); ok && kv.Key == n {
+					continue
+				}
+				if tv, ok := c.info.Types[n]; !ok || tv.Value == nil {
+					continue // not a constant here (shadowed)
+				}
+				cur.Replace(knobCall(k.Name, ast.NewIdent(n.Name)))
+			}
 		case *ast.ChanType:
 			repl := &ast.StarExpr{X: &ast.IndexExpr{X: rtSel("Chan"), Index: n.Value}}
 			if t := c.info.TypeOf(n); t != nil {
